@@ -554,3 +554,79 @@ Proof.
     destruct (lookup_parse (units (l_ix L) (render L r)) (l_cuts L) f (ok_cut_keys _ _ F)) as [-> _].
     unfold assigned. now rewrite Ef.
 Qed.
+
+(* ------------------------------------------------------------------ *)
+(* non-vacuity: a concrete EntryDetail-like layout and record value      *)
+
+Local Open Scope string_scope.
+
+Definition Ex_layout : layout := mklayout "ExEntryDetail" IRune
+  [ SLit [54]%N
+  ; SItoa "TransactionCode"
+  ; SStr "RDFIIdentification" 8
+  ; SRaw "CheckDigit"
+  ; SAlpha "DFIAccountNumber" 17
+  ; SNum "Amount" 10
+  ; SAlpha "IdentificationNumber" 15
+  ; SAlpha "IndividualName" 22
+  ; SAlpha "DiscretionaryData" 2
+  ; SItoa "AddendaRecordIndicator"
+  ; SStr "TraceNumber" 15 ]
+  [ mkcut 0 1 "" []
+  ; mkcut 1 3 "TransactionCode" ["parseNumField"]
+  ; mkcut 3 11 "RDFIIdentification" ["parseStringField"]
+  ; mkcut 11 12 "CheckDigit" []
+  ; mkcut 12 29 "DFIAccountNumber" ["parseStringFieldWithOpts"]
+  ; mkcut 29 39 "Amount" ["parseNumField"]
+  ; mkcut 39 54 "IdentificationNumber" []
+  ; mkcut 54 76 "IndividualName" ["strings.TrimSpace"]
+  ; mkcut 76 78 "DiscretionaryData" []
+  ; mkcut 78 79 "AddendaRecordIndicator" ["parseNumField"]
+  ; mkcut 79 94 "TraceNumber" [] ].
+
+(* IndividualName "José Ñandú" contains two-byte runes; the amount overflows nothing *)
+Definition Ex_record : recval :=
+  [ ("TransactionCode", VI 22)
+  ; ("RDFIIdentification", VS (bytes_of_string "23138010"))
+  ; ("CheckDigit", VS (bytes_of_string "4"))
+  ; ("DFIAccountNumber", VS (bytes_of_string "12345678"))
+  ; ("Amount", VI 100000)
+  ; ("IdentificationNumber", VS (bytes_of_string " id 7"))
+  ; ("IndividualName", VS [74; 111; 115; 195; 169; 32; 195; 145; 97; 110; 100; 195; 186]%N)
+  ; ("DiscretionaryData", VS (bytes_of_string "S"))
+  ; ("AddendaRecordIndicator", VI 0)
+  ; ("TraceNumber", VS (bytes_of_string "121042880000001")) ].
+
+Example Ex_layout_ok : layout_ok Ex_layout = true.
+Proof. vm_compute. reflexivity. Qed.
+Example Ex_fits : fitsb Ex_layout Ex_record = true.
+Proof. vm_compute. reflexivity. Qed.
+Example Ex_stable : stableb Ex_layout Ex_record = true.
+Proof. vm_compute. reflexivity. Qed.
+
+Example Ex_render_width : rune_count (render Ex_layout Ex_record) = 94.
+Proof. apply render_width; [exact Ex_layout_ok|exact Ex_fits]. Qed.
+(* the record has 97 bytes: the width is counted in runes *)
+Example Ex_render_bytes : length (render Ex_layout Ex_record) = 97.
+Proof. vm_compute. reflexivity. Qed.
+Example Ex_render_wf : wf_utf8 (render Ex_layout Ex_record) = true.
+Proof. apply render_wf; [exact Ex_layout_ok|exact Ex_fits]. Qed.
+Example Ex_parse_render :
+  lookup (parse Ex_layout (render Ex_layout Ex_record)) "IndividualName"
+  = Some (VS [74; 111; 115; 195; 169; 32; 195; 145; 97; 110; 100; 195; 186]%N).
+Proof.
+  rewrite (parse_render_fields Ex_layout Ex_record "IndividualName" Ex_layout_ok Ex_fits). vm_compute. reflexivity.
+Qed.
+Example Ex_reparse_fixed :
+  render Ex_layout (overlay (parse Ex_layout (render Ex_layout Ex_record)) Ex_record) = render Ex_layout Ex_record.
+Proof. apply reparse_fixed; [exact Ex_layout_ok|exact Ex_fits|exact Ex_stable]. Qed.
+
+(* the side conditions are not vacuous either: values outside them break the conclusions *)
+Example Ex_width_needs_fits :   (* CheckDigit of two characters: the record has 95 columns *)
+  rune_count (render Ex_layout (("CheckDigit", VS (bytes_of_string "44")) :: Ex_record)) = 95.
+Proof. vm_compute. reflexivity. Qed.
+Example Ex_stable_needs_plain : (* a leading blank in a trimmed alpha field moves the text *)
+  let r := ("IndividualName", VS (bytes_of_string " Doe")) :: Ex_record in
+  fitsb Ex_layout r = true /\ stableb Ex_layout r = false /\
+  render Ex_layout (overlay (parse Ex_layout (render Ex_layout r)) r) <> render Ex_layout r.
+Proof. vm_compute. repeat split; discriminate. Qed.
